@@ -351,6 +351,70 @@ func c15TextAndScope(w *World, r *Report, rule string, want func(fn string) bool
 		}
 		cf := mc.Fn.(*ssa.Function)
 		var cell ssa.Value
+		// a method value of a small struct that carries the statement (scope.namespace): the method resolves
+		// prefixes through a field of its receiver, and that field of the bound receiver holds the statement
+		if cf.Synthetic != "" && len(mc.Bindings) == 1 {
+			var m *ssa.Function
+			for _, cb := range cf.Blocks {
+				for _, ci := range cb.Instrs {
+					if cc, ok := ci.(*ssa.Call); ok && cc.Call.StaticCallee() != nil {
+						m = cc.Call.StaticCallee()
+					}
+				}
+			}
+			fieldIdx := -1
+			if m != nil && len(m.Params) > 0 {
+				for _, cb := range m.Blocks {
+					for _, ci := range cb.Instrs {
+						cc, ok := ci.(*ssa.Call)
+						if !ok || !cc.Call.IsInvoke() || nm(cc.Call.Method) != "YangPrefixToNamespace" {
+							continue
+						}
+						switch x := cc.Call.Value.(type) {
+						case *ssa.Field:
+							if x.X == ssa.Value(m.Params[0]) {
+								fieldIdx = x.Field
+							}
+						case *ssa.UnOp:
+							if fa, ok := x.X.(*ssa.FieldAddr); ok {
+								base := fa.X
+								if ld, ok := base.(*ssa.UnOp); ok {
+									base = ld.X
+								}
+								if base == ssa.Value(m.Params[0]) || cellOf(fa.X) == ssa.Value(m.Params[0]) {
+									fieldIdx = fa.Field
+								}
+							}
+						}
+					}
+				}
+			}
+			if fieldIdx >= 0 {
+				recv := mc.Bindings[0]
+				var box *ssa.Alloc
+				switch x := recv.(type) {
+				case *ssa.UnOp:
+					box, _ = x.X.(*ssa.Alloc)
+				case *ssa.Alloc:
+					box = x
+				}
+				if box != nil {
+					for _, ref := range *box.Referrers() {
+						if fa, ok := ref.(*ssa.FieldAddr); ok && fa.Field == fieldIdx {
+							for _, r2 := range *fa.Referrers() {
+								if st, ok := r2.(*ssa.Store); ok && st.Addr == ssa.Value(fa) {
+									cell = cellOf(st.Val)
+								}
+							}
+						}
+					}
+				}
+			}
+			if cell == nil {
+				return nil, "the method value does not resolve prefixes through a statement held by its receiver"
+			}
+			return cell, ""
+		}
 		for _, cb := range cf.Blocks {
 			for _, ci := range cb.Instrs {
 				cc, ok := ci.(*ssa.Call)
